@@ -129,3 +129,43 @@ pub proof fn lemma_cmap_lookup_all(m: Map<Key, Bytes>)
         lemma_cmap_lookup(m, k);
     }
 }
+
+// ---- broadcast forms: fire on the terms that vstd's BTreeMap specifications produce ----
+pub broadcast proof fn bc_cmap_insert(m: Map<Key, Bytes>, k: Key, v: Bytes)
+    ensures #[trigger] cmap(m.insert(k, v)) == cmap(m).insert(k@, bview(&v)),
+{
+    lemma_cmap_insert(m, k, v);
+}
+pub broadcast proof fn bc_cmap_removed(old: Map<Key, Bytes>, new: Map<Key, Bytes>, k: &[u8])
+    requires #[trigger] borrowed_key_removed::<Key, Bytes, [u8]>(old, new, k),
+    ensures cmap(new) == cmap(old).remove(k@),
+{
+    lemma_cmap_remove(old, new, k);
+}
+pub broadcast proof fn bc_cmap_contains_borrowed(m: Map<Key, Bytes>, k: &[u8])
+    ensures #[trigger] contains_borrowed_key::<Key, Bytes, [u8]>(m, k) == cmap(m).contains_key(k@),
+{
+    lemma_cmap_lookup(m, k);
+}
+pub broadcast proof fn bc_cmap_maps_borrowed(m: Map<Key, Bytes>, k: &[u8], v: Bytes)
+    requires #[trigger] maps_borrowed_key_to_value::<Key, Bytes, [u8]>(m, k, v),
+    ensures cmap(m).contains_key(k@), cmap(m)[k@] == bview(&v),
+{
+    lemma_cmap_lookup(m, k);
+}
+/// `insert` reports the previous value through the concrete key
+pub broadcast proof fn bc_cmap_contains_key(m: Map<Key, Bytes>, kk: Key)
+    ensures
+        #[trigger] m.contains_key(kk) == cmap(m).contains_key(kk@),
+        m.contains_key(kk) ==> cmap(m)[kk@] == bview(&m[kk]),
+{
+    lemma_cmap_contains(m, kk@);
+    lemma_cmap_key(m, kk);
+    if cmap(m).contains_key(kk@) {
+        let k2 = choose|k2: Key| #[trigger] m.contains_key(k2) && k2@ == kk@;
+        assert(k2 == kk);
+    }
+}
+pub broadcast group group_cmap {
+    bc_cmap_insert, bc_cmap_removed, bc_cmap_contains_borrowed, bc_cmap_maps_borrowed, bc_cmap_contains_key,
+}
